@@ -1,9 +1,11 @@
 // h_process.cpp - C20: Process::Arguments against an independent getopt_long-convention reference (argv strings in exactly-sized heap
 // blocks), and child processes started through every Process::start/open overload with a self-exec echo child (--child-echo).
 // modes: args-exh (every vector of <= `scale` words over a token alphabet), args-rand (character-level random words),
-//        proc (argv/env/exit code/stream cases), proc-bs (command lines with backslashes inside quoted segments)
+//        proc (argv/env/exit code/stream cases), proc-bs (command lines with backslashes inside quoted segments),
+//        proc-late (children that write to their redirected stdout/stderr only after the parent is inside join() / the destructor)
 #include "vh.hpp"
 #include "scratch.hpp"
+#include <time.h>
 #include <nstd/Process.hpp>
 #include <nstd/List.hpp>
 #include <nstd/Map.hpp>
@@ -22,12 +24,22 @@ static const char* key(const char* fmt, ...) { va_list ap; va_start(ap, fmt); vs
 
 // =================================================================================================== the echo child (plain libc only)
 static void wrAll(int fd, const void* p, size_t n) { const char* c = (const char*)p; while (n) { ssize_t k = write(fd, c, n); if (k <= 0) _exit(97); c += k; n -= (size_t)k; } }
+static long long monoNs() { struct timespec ts; clock_gettime(CLOCK_MONOTONIC, &ts); return (long long)ts.tv_sec * 1000000000LL + ts.tv_nsec; }
+static int g_rf = -1;
+// the child's own stdout/stderr: a failing write is recorded in the report ("W <fd> <errno>") before the child gives up with code 97
+static void wrStream(int fd, const void* p, size_t n) {
+  const char* c = (const char*)p;
+  while (n) { ssize_t k = write(fd, c, n); if (k <= 0) { int e = errno; char line[48]; int l = snprintf(line, sizeof line, "W %d %d\n", fd, e); if (g_rf >= 0) wrAll(g_rf, line, (size_t)l); _exit(97); } c += k; n -= (size_t)k; }
+}
 static int childMain(int argc, char** argv) {
-  // argv: exe --child-echo <report file> <code,flags,outN,errN,seed> [test arguments...]
+  // argv: exe --child-echo <report file> <code,flags,outN,errN,seed[,delayMs]> [test arguments...]
+  // flags: 1 read stdin to end-of-file, 2/4 echo stdin to stdout/stderr, 8 payload before the stdin phase, 16 "late": sleep delayMs right before the payload
+  //        is written (report line "T <CLOCK_MONOTONIC ns>" = the moment the sleep ended), 32 (with 16) SIGPIPE back to its default action
   if (argc < 4) _exit(96);
-  int code = 0, flags = 0; long outN = 0, errN = 0; unsigned long seed = 0;
-  if (sscanf(argv[3], "%d,%d,%ld,%ld,%lu", &code, &flags, &outN, &errN, &seed) != 5) _exit(95);
+  int code = 0, flags = 0; long outN = 0, errN = 0, delayMs = 0; unsigned long seed = 0;
+  if (sscanf(argv[3], "%d,%d,%ld,%ld,%lu,%ld", &code, &flags, &outN, &errN, &seed, &delayMs) < 5) _exit(95);
   int rf = open(argv[2], O_WRONLY | O_CREAT | O_TRUNC, 0600); if (rf < 0) _exit(94);
+  g_rf = rf;
   char line[64]; int k = snprintf(line, sizeof line, "A %d\n", argc); wrAll(rf, line, (size_t)k);
   for (int i = 0; i < argc; ++i) { k = snprintf(line, sizeof line, "%lu ", (unsigned long)strlen(argv[i])); wrAll(rf, line, (size_t)k); wrAll(rf, argv[i], strlen(argv[i])); wrAll(rf, "\n", 1); }
   int envc = 0; while (environ[envc]) ++envc;
@@ -37,15 +49,20 @@ static int childMain(int argc, char** argv) {
   for (int phase = 0; phase < 2; ++phase) {
     bool payload = (phase == 0) == ((flags & 8) != 0);
     if (payload) {   // interleave stdout (stream 1) and stderr (stream 2) chunks
+      if (flags & 16) {
+        if (flags & 32) signal(SIGPIPE, SIG_DFL);
+        struct timespec ts; ts.tv_sec = delayMs / 1000; ts.tv_nsec = (delayMs % 1000) * 1000000L; while (nanosleep(&ts, &ts) != 0 && errno == EINTR) {}
+        k = snprintf(line, sizeof line, "T %lld\n", monoNs()); wrAll(rf, line, (size_t)k);
+      }
       long o = 0, e = 0; unsigned lcg = (unsigned)seed * 2654435761u + 12345u;
       while (o < outN || e < errN) {
         lcg = lcg * 1664525u + 1013904223u; long c = 1 + (long)((lcg >> 8) % 8192);
-        if (o < outN) { long n = outN - o < c ? outN - o : c; for (long i = 0; i < n; ++i) buf[i] = pat((unsigned)seed, 1, (unsigned long)(o + i)); wrAll(1, buf, (size_t)n); o += n; }
-        if (e < errN) { long n = errN - e < c ? errN - e : c; for (long i = 0; i < n; ++i) buf[i] = pat((unsigned)seed, 2, (unsigned long)(e + i)); wrAll(2, buf, (size_t)n); e += n; }
+        if (o < outN) { long n = outN - o < c ? outN - o : c; for (long i = 0; i < n; ++i) buf[i] = pat((unsigned)seed, 1, (unsigned long)(o + i)); wrStream(1, buf, (size_t)n); o += n; }
+        if (e < errN) { long n = errN - e < c ? errN - e : c; for (long i = 0; i < n; ++i) buf[i] = pat((unsigned)seed, 2, (unsigned long)(e + i)); wrStream(2, buf, (size_t)n); e += n; }
       }
     } else if (flags & 1) {
       unsigned long total = 0; u64 h = 1469598103934665603ULL;
-      for (;;) { ssize_t n = read(0, buf, sizeof buf); if (n < 0) _exit(93); if (!n) break; total += (unsigned long)n; h = fnv(buf, (size_t)n, h); if (flags & 2) wrAll(1, buf, (size_t)n); if (flags & 4) wrAll(2, buf, (size_t)n); }
+      for (;;) { ssize_t n = read(0, buf, sizeof buf); if (n < 0) _exit(93); if (!n) break; total += (unsigned long)n; h = fnv(buf, (size_t)n, h); if (flags & 2) wrStream(1, buf, (size_t)n); if (flags & 4) wrStream(2, buf, (size_t)n); }
       k = snprintf(line, sizeof line, "I %lu %llu\n", total, (unsigned long long)h); wrAll(rf, line, (size_t)k);
     }
   }
@@ -374,6 +391,98 @@ static void processCases(bool backslashMode) {
   }
 }
 
+
+// =================================================================================================== late output: the child writes while the parent is inside join()
+// The child sleeps a seeded 20..200 ms, then writes a payload that fits the pipe to its redirected stdout and/or stderr and exits with the given
+// code. The parent does not read first: it calls join(exitCode) / join() / the destructor right after open(). The child can always finish on its
+// own (nobody has to drain the pipe), so: join() reports the requested code, and the child's report proves that every write succeeded and
+// that it reached its _exit ("D" line). Variant read-then-join: the parent reads to end-of-file first (blocks until the late bytes arrive).
+static void lateCases() {
+  signal(SIGPIPE, SIG_IGN);
+  snprintf(g_exe, sizeof g_exe, "/proc/self/exe");
+  static const uint SETS[] = { Process::stdoutStream, Process::stderrStream, Process::stdoutStream | Process::stderrStream, Process::stdoutStream | Process::stdinStream,
+                               Process::stderrStream | Process::stdinStream, Process::stdoutStream | Process::stderrStream | Process::stdinStream };
+  static const char* FORM[] = { "Process.open(commandLine)", "Process.open(executable,argc,argv)", "Process.open(executable,List)" };
+  static const char* FIN[] = { "join(exitCode)", "join()", "destructor", "read-then-join" }; static const int FINSEQ[] = { 0, 0, 3, 2, 1 };
+  for (long idx = opts.start; idx < opts.start + opts.cases; ++idx) {
+    if (!mine(idx)) continue;
+    beginCase(idx);
+    Rng r(opts.seed, 2005, (u64)idx);
+    int form = (int)(idx % 3); uint streams = SETS[(idx / 3) % 6]; int fin = FINSEQ[(idx + idx / 256) % 5]; int code = (int)(idx % 256);   // every code meets join(exitCode) within 512 consecutive cases
+    bool so = streams & Process::stdoutStream, se = streams & Process::stderrStream, si = streams & Process::stdinStream;
+    long delay = r.range(20, 200);
+    long outN = so ? (r.chance(1, 5) ? 1 : r.range(2, 4096)) : 0, errN = se ? (r.chance(1, 5) ? 1 : r.range(2, 4096)) : 0;
+    if (so && se && r.chance(1, 4)) { if (r.chance(1, 2)) outN = 0; else errN = 0; }
+    bool sigDefault = r.chance(1, 2); int flags = 16 | (sigDefault ? 32 : 0) | (r.chance(1, 2) ? 8 : 0); unsigned seed = (unsigned)r.below(1000000);
+    char report[300]; snprintf(report, sizeof report, "%s/l%ld", scratch::root, idx); unlink(report);
+    char ctl[120]; snprintf(ctl, sizeof ctl, "%d,%d,%ld,%ld,%u,%ld", code, flags, outN, errN, seed, delay);
+    const char* words[6]; int nw = 0; words[nw++] = g_exe; words[nw++] = "--child-echo"; words[nw++] = report; words[nw++] = ctl; if (r.chance(1, 2)) words[nw++] = "extra";
+    Map<String, String> env; env.insert(String("VT_LATE"), String("1"));
+    char strs[40]; snprintf(strs, sizeof strs, "streams=%s%s%s", so ? "o" : "", se ? "e" : "", si ? "i" : "");
+    const char* F0 = FORM[form];
+    hist.addf("%s %s: the child sleeps %ld ms, then writes stdout=%ld stderr=%ld bytes and exits with %d (SIGPIPE %s in the child); the parent calls %s right after open()\n",
+              F0, strs, delay, outN, errN, code, sigDefault ? "default action" : "ignored", fin == 3 ? "read() to end-of-file, then join(exitCode)" : FIN[fin]);
+    setctxf("%s/%s,late-output,%s", F0, strs, FIN[fin]);
+    Process* p = new Process; bool started;
+    if (form == 0) { Text cmd; for (int i = 0; i < nw; ++i) { if (i) cmd.add(" "); cmd.add(words[i]); } started = p->open(String(cmd.c(), cmd.n), streams, env); }
+    else if (form == 1) { char* argv[6]; for (int i = 0; i < nw; ++i) argv[i] = strdup(words[i]); started = p->open(String(g_exe, strlen(g_exe)), nw, argv, streams, env); for (int i = 0; i < nw; ++i) free(argv[i]); }
+    else { List<String> l; for (int i = 0; i < nw; ++i) l.append(String(words[i], strlen(words[i]))); started = p->open(String(g_exe, strlen(g_exe)), l, streams, env); }
+    if (!started) fail(key("%s/not-started", F0), "returned failure: %s", strerror(errno));
+    long long t0 = monoNs(); uint32 got = 0xdeadbeef; bool haveCode = false; Reader rd; rd.error = false;
+    switch (fin) {
+    case 0: { bool j = p->join(got); if (!j) fail(key("%s/%s,late-output,%s/join-result", F0, strs, FIN[fin]), "join returned false: %s", strerror(errno)); haveCode = true; break; }
+    case 1: { bool j = p->join(); if (!j) fail(key("%s/%s,late-output,%s/join-result", F0, strs, FIN[fin]), "join returned false: %s", strerror(errno)); break; }
+    case 2: break;
+    default: {
+      rd.p = p; rd.mask = streams & (Process::stdoutStream | Process::stderrStream); rd.oneArg = rd.mask == Process::stdoutStream && r.chance(1, 2); rd.chunk = (size_t)(r.chance(1, 2) ? r.range(1, 300) : 8192); rd.lastErrno = 0; rd.reads = 0;
+      readerMain(&rd);
+      if (rd.error) fail(key("%s/%s,late-output,%s/read-error", F0, strs, FIN[fin]), "Process::read failed (errno %d) before end-of-file", rd.lastErrno);
+      bool j = p->join(got); if (!j) fail(key("%s/%s,late-output,%s/join-result", F0, strs, FIN[fin]), "join returned false: %s", strerror(errno)); haveCode = true; break; }
+    }
+    if (fin != 2 && p->isRunning()) fail(key("%s/isRunning-after-join", F0), "isRunning() still true after join");
+    delete p;   // fin == 2: the destructor joins
+    // ---- the child's report (the child has been reaped in every variant, the file is final)
+    Bytes rep; { int fd = open(report, O_RDONLY); if (fd < 0) fail(key("%s/child-did-not-run", F0), "the child wrote no report (exec failed?)"); u8 b[8192]; for (;;) { ssize_t k = read(fd, b, sizeof b); if (k <= 0) break; bappend(rep, b, (size_t)k); } close(fd); unlink(report); }
+    { u8 z = 0; bappend(rep, &z, 1); }
+    const char* q = (const char*)rep.d; const char* qe = q + rep.n - 1;
+    for (int sec = 0; sec < 2; ++sec) {   // skip the argv and the environment section (compared in mode proc)
+      long cnt0 = -1; if (sscanf(q, sec ? "E %ld\n" : "A %ld\n", &cnt0) != 1) harnessBug("bad report (section %d)", sec); q = strchr(q, '\n') + 1;
+      if (!sec && cnt0 != nw) fail(key("%s/argc", F0), "child got %ld arguments, %d were given", cnt0, nw);
+      for (long i = 0; i < cnt0; ++i) { unsigned long l = strtoul(q, (char**)&q, 10); ++q; if (q + l > qe) harnessBug("bad report (entry)"); q += l + 1; }
+    }
+    long long tWrite = 0; bool haveT = false, done = false; int wfd = -1, werr = 0;
+    while (q < qe) {
+      if (q[0] == 'T' && sscanf(q, "T %lld", &tWrite) == 1) haveT = true;
+      else if (q[0] == 'W') sscanf(q, "W %d %d", &wfd, &werr);
+      else if (q[0] == 'D' && q[1] == '\n') done = true;
+      const char* nl = strchr(q, '\n'); if (!nl) break; q = nl + 1;
+    }
+    if (!haveT) harnessBug("late child wrote no T line");
+    bool lateForReal = fin != 3 && tWrite > t0;   // the child's sleep ended after this process had started its join()/destructor call
+    char joined[64] = ""; if (haveCode) snprintf(joined, sizeof joined, "; join reported exit code %u", got);
+    if (wfd >= 0) fail(key("%s/%s,late-output,%s/child-write-failed", F0, strs, FIN[fin]), "the child's write to its redirected %s failed with \"%s\" %lld us after the parent had called %s (%ld-byte payload, nobody has to read it for the child to finish); the child was to exit with %d%s",
+                       wfd == 1 ? "stdout" : "stderr", strerror(werr), (tWrite - t0) / 1000, FIN[fin], wfd == 1 ? outN : errN, code, joined);
+    if (!done) fail(key("%s/%s,late-output,%s/child-did-not-finish", F0, strs, FIN[fin]), "the child never reached its exit(%d): it was terminated while writing %ld/%ld bytes to stdout/stderr %lld us after the parent had called %s%s",
+                    code, outN, errN, (tWrite - t0) / 1000, FIN[fin], joined);
+    if (haveCode && got != (uint32)code) fail(key("%s/%s,late-output,%s/exit-code", F0, strs, FIN[fin]), "join reported exit code %u, the child exited with %d", got, code);
+    if (fin == 3) {
+      bool okO = rd.out.n == (size_t)outN, okE = rd.err.n == (size_t)errN;
+      for (long i = 0; okO && i < outN; ++i) if (rd.out.d[i] != pat(seed, 1, (unsigned long)i)) okO = false;
+      for (long i = 0; okE && i < errN; ++i) if (rd.err.d[i] != pat(seed, 2, (unsigned long)i)) okE = false;
+      if (so && !okO) fail(key("%s/%s,late-output,%s/stdout-bytes", F0, strs, FIN[fin]), "read %lu bytes from the child's stdout until end-of-file, it wrote %ld (or different bytes)", (unsigned long)rd.out.n, outN);
+      if (se && !okE) fail(key("%s/%s,late-output,%s/stderr-bytes", F0, strs, FIN[fin]), "read %lu bytes from the child's stderr until end-of-file, it wrote %ld (or different bytes)", (unsigned long)rd.err.n, errN);
+      cnt("late_stream_bytes_compared", outN * so + errN * se);
+    }
+    cnt("late_children"); cnt("late_payload_bytes", outN + errN); if (lateForReal) cnt("late_writes_after_join_entry"); if (fin != 3) cnt("late_children_not_read_first");
+    if (haveCode) { char s[8]; snprintf(s, sizeof s, "%d", code); setItem(fin == 0 ? "late_exit_codes_join_first" : "late_exit_codes_read_first", s); }
+    setItem("late_finish", FIN[fin]); setItem("late_stream_sets", strs); setItem("late_overloads", F0); setItem("late_child_sigpipe", sigDefault ? "default" : "ignored");
+    { char s[96]; snprintf(s, sizeof s, "%s,%s", FIN[fin], strs); setItem("late_finish_x_streams", s); }
+    statMax("late_max_delay_ms", delay);
+    if (idx % 97 == 0) sample("%.600s", hist.c());
+    endCase(mix(mix(23, (u64)form * 8 + streams), mix((u64)code * 4 + (u64)fin, (u64)(outN * 4099 + errN))), true);
+  }
+}
+
 // =================================================================================================== probes
 static int probe(const char* k) {
   if (!strncmp(k, "Process.Arguments", 17)) { const char* w[] = { "-ab" }; size_t wl[] = { 3 }; runVector(w, wl, 1); const char* w2[] = { "-abc", "x" }; size_t wl2[] = { 4, 1 }; runVector(w2, wl2, 2); return 0; }
@@ -388,6 +497,7 @@ static int worker(int argc, char** argv) {
   else if (!strcmp(m, "args-rand")) argsRandom();
   else if (!strcmp(m, "proc")) processCases(false);
   else if (!strcmp(m, "proc-bs")) processCases(true);
+  else if (!strcmp(m, "proc-late")) lateCases();
   else harnessBug("unknown mode %s", m);
   cnt("vectors", g_vectors); cnt("items_compared", g_items); cnt("vectors_outside_conventions_skipped", g_skipped);
   leakCheck("Process/leak");
